@@ -299,6 +299,29 @@ def run(ck):
             o = rr.origins(rc[0][1]["args"][2], deep=True)
             ck.ob("DEFUSE", rr.path, "runs-stored-config", ("field", "config") in o or ("arg", 1) in o, "the resumed configuration is the stored one", rr.loc(rc[0][0]))
 
+    # the index handed back to the resumed contract names the parameter that is pushed for it: the length of the parameter
+    # stack is read BEFORE the push (both on success with data and on a rejecting callee); read after the push it is one
+    # past the end and the contract cannot fetch the returned data
+    nidx = 0
+    for pth in (E + "::v1::resume_receive", E + "::v1::InvokeFailure::encode_as_u64"):
+        g = getfn(ck, "sc", E, pth)
+        if not g:
+            continue
+        pushes_ = [(bi, t) for (bi, t) in g.calls(r"Vec::<T, A>::push$|Vec::<T>::push$") if ("field", "parameters") in g.origins(t["args"][0], deep=True) or g.names().get((op_place(t["args"][0]) or [None])[0]) == "parameters" or any(a[0] == "arg" for a in g.origins(t["args"][0], deep=False))]
+        for bi in sorted(g.reachable()):
+            for st in g.stmts(bi):
+                rv = st.get("rv", {})
+                if rv.get("k") == "bin" and rv["op"].startswith("Shl") and op_const(rv["b"]) is not None and const_int(op_const(rv["b"])) == 40:
+                    lens = [a[2] for a in g.origins(rv["a"], deep=True) if a[0] == "call" and len(a) > 2 and re.search(r"::len$", a[1])]
+                    if not lens:
+                        continue
+                    nidx += 1
+                    late = [lb for lb in lens if any(g.dominates(pb, lb) for (pb, _) in pushes_)]
+                    ck.ob("DOM", g.path, "parameter-index-read-before-the-push#%d" % nidx, bool(pushes_) and not late,
+                          "the index is parameters.len() taken before the returned data is pushed" if pushes_ and not late else
+                          "the index shifted into the response is parameters.len() read AFTER the push: it points one past the parameter that holds the returned data", g.loc(late[0]) if late else g.loc(bi))
+    ck.floor("DOM", "parameter indices encoded in responses", nidx, 2)
+
     # events logged before a query-type interrupt stay with the suspended execution: the pending logs are taken out of the
     # saved host only for interrupts that end a section (transfer, call, upgrade: `should_clear_logs()`); taking them for a
     # query loses them, because a query produces no event in which they could be reported
